@@ -132,6 +132,11 @@ func ruleErrAll(p *Prog, r *Result) {
 				return
 			}
 			msg := checkErrFlowOpt(p, fn, c, ev, nil, true)
+			if msg != "" && fn.Parent() != nil && errResultIndex(fn.Signature) < 0 && handedToParent(fn, ev) {
+				// a function literal without an error result (a Walk callback) that stores the error into a variable
+				// of the enclosing function, which returns that variable
+				msg = ""
+			}
 			r.add(msg == "", key, p.InstrPos(in), firstNonEmpty(msg, "error examined on every path and returned on failure"))
 		})
 	}
@@ -185,4 +190,87 @@ func forwardedCallees(p *Prog, g *ssa.Function) []string {
 		out = append(out, callDesc(p, call))
 	}
 	return out
+}
+
+
+// handedToParent: the error value ev of the function literal fn is stored (directly or through a phi) into a free
+// variable, and the enclosing function returns the content of the variable bound to it as its error result.
+func handedToParent(fn *ssa.Function, ev ssa.Value) bool {
+	parent := fn.Parent()
+	if parent == nil {
+		return false
+	}
+	pi := errResultIndex(parent.Signature)
+	if pi < 0 {
+		return false
+	}
+	// free variables that receive ev
+	recv := map[int]bool{}
+	allInstrs(fn, func(in ssa.Instruction) {
+		st, ok := in.(*ssa.Store)
+		if !ok {
+			return
+		}
+		fv, ok := st.Addr.(*ssa.FreeVar)
+		if !ok {
+			return
+		}
+		carries := false
+		seen := map[ssa.Value]bool{}
+		var rec func(v ssa.Value)
+		rec = func(v ssa.Value) {
+			if seen[v] {
+				return
+			}
+			seen[v] = true
+			if v == ev {
+				carries = true
+			}
+			switch x := v.(type) {
+			case *ssa.Phi:
+				for _, e := range x.Edges {
+					rec(e)
+				}
+			case *ssa.MakeInterface:
+				rec(x.X)
+			case *ssa.ChangeInterface:
+				rec(x.X)
+			}
+		}
+		rec(st.Val)
+		if carries {
+			for i, f := range fn.FreeVars {
+				if f == fv {
+					recv[i] = true
+				}
+			}
+		}
+	})
+	if len(recv) == 0 {
+		return false
+	}
+	// the cells bound to them in the parent
+	cells := map[ssa.Value]bool{}
+	allInstrs(parent, func(in ssa.Instruction) {
+		mc, ok := in.(*ssa.MakeClosure)
+		if !ok || mc.Fn != ssa.Value(fn) {
+			return
+		}
+		for i := range recv {
+			if i < len(mc.Bindings) {
+				cells[mc.Bindings[i]] = true
+			}
+		}
+	})
+	returned := false
+	for _, b := range parent.Blocks {
+		ret := retOf(b)
+		if ret == nil || pi >= len(ret.Results) {
+			continue
+		}
+		if u, ok := retVal(ret, pi).(*ssa.UnOp); ok && cells[u.X] {
+			returned = true
+		}
+	}
+	return returned
 }
